@@ -337,7 +337,9 @@ def _observe_scale(data, order, plan):
 
 
 def _skel(leaves):
-    return tuple((p, k, (v if k in ("I",) else h)) for p, k, v, h in leaves)
+    """everything that is not a design-unit number: paths, kinds and the identity values (the bound h of a number
+    is taken from the BEFORE side and is not part of the font)"""
+    return tuple((p, k, (v if k in ("I",) else None)) for p, k, v, h in leaves)
 
 
 def _strip_close(ops):
